@@ -44,6 +44,10 @@ def arena_configs(tier):
         ("first-bucket", 0, [[A(1, 1), op("len")], [A(2, 1), op("get", 1)]]),
         ("cross-boundary-2", 383, [[A(1, 1), A(1, 2)], [A(2, 1), op("len")]]),
         ("len-get", 127, [[op("len"), A(1, 2)], [A(2, 1), op("get", 0)]]),
+        # the arena is dropped when its elements EXACTLY fill the first / the second bucket (seeded/C06b-...: Drop computed the used
+        # length of the last bucket from the offset of the next free slot, which is 0 exactly then)
+        ("exact-fill", 126, [[A(1, 1), op("len")], [A(2, 1)]]),
+        ("exact-fill-2", 382, [[A(1, 1)], [A(2, 1), op("get", 1)]]),
     ]
     if tier == "quick":
         return two
